@@ -195,6 +195,40 @@ def run_case(case: dict) -> dict:
         counters["twin_inverse_map_agrees"] = int(twin_bad is None)
         viols.append(core.viol("linear label model's rate of change differs from the isotopomer model's positional enrichment", mech, **bad, **ctx,
                                twin="linear mapper with inverse maps agrees" if twin_bad is None else f"twin still differs: {twin_bad}"))
+    # one mapper object used for two builds: first with other maps, then, after its maps were replaced through the public
+    # field (assigned or edited in place), with the maps of this case; the second build must be the model a fresh mapper builds
+    if net["maps"] and rng.random() < 0.5:
+        other = {}
+        for k, v in net["maps"].items():
+            w = list(v)
+            rng.shuffle(w)
+            other[k] = w
+        reused = LinearLabelMapper(base, label_variables=dict(net["labels"]), label_maps=other)
+        try:
+            reused.build_model(concs=concs, fluxes=fluxes, external_label=0.5)
+            for k, v in net["maps"].items():
+                if rng.random() < 0.5:
+                    reused.label_maps[k] = list(v)
+                else:
+                    reused.label_maps[k][:] = list(v)
+            m2 = reused.build_model(concs=concs, fluxes=fluxes, external_label=1.0)
+            names = lin_model.get_variable_names()
+            if sorted(m2.get_variable_names()) != sorted(names):
+                viols.append(core.viol("second build of one mapper (maps replaced in between) has other variables than a fresh mapper's build", None, got=sorted(m2.get_variable_names()), expected=sorted(names), **ctx))
+            else:
+                for _ in range(3):
+                    e = {v: round(rng.uniform(0.0, 1.0), 4) for v in names}
+                    d1, d2 = lin_model.get_right_hand_side(e, 0.0), m2.get_right_hand_side(e, 0.0)
+                    worst = max(names, key=lambda v: abs(float(d1[v]) - float(d2[v])))
+                    if not core.close(float(d2[worst]), float(d1[worst]), 1e-9, 1e-12):
+                        viols.append(core.viol("second build of one mapper (maps replaced in between) differs from a fresh mapper's build", None, position=worst, fresh=float(d1[worst]), reused=float(d2[worst]),
+                                               first_maps=other, **ctx))
+                        break
+            counters["mapper_reused_for_a_second_build_after_its_maps_were_replaced"] = 1
+        except Exception:  # noqa: BLE001
+            import traceback
+
+            viols.append(core.viol("second build of one mapper (maps replaced in between) raised", None, error=traceback.format_exc()[-500:], first_maps=other, **ctx))
     # stationarity of uniform enrichment = EXT, and no label without source
     for ext in (0.0, 0.3, 1.0):
         m = lin.build_model(concs=concs, fluxes=fluxes, external_label=ext)
